@@ -252,7 +252,15 @@ def truncate_hs(
     ValueError
         `is_zero_imaginary_part_required` == True and some imaginary parts of entries of matrix != 0.
     """
-    tmp_hs = truncate_imaginary_part(hs, eps=eps_truncate_imaginary_part)
+    # the rounding noise of the imaginary parts grows with the size of the entries,
+    # so the threshold is relative to the largest real part when that exceeds 1.
+    eps = (
+        Settings.get_atol()
+        if eps_truncate_imaginary_part is None
+        else eps_truncate_imaginary_part
+    )
+    size = np.max(np.abs(np.real(hs))) if np.size(hs) > 0 else 0.0
+    tmp_hs = truncate_imaginary_part(hs, eps=eps * max(1.0, size))
 
     if is_zero_imaginary_part_required == True and np.any(tmp_hs.imag != 0):
         raise ValueError(
